@@ -82,3 +82,160 @@ pub fn with_stderr_gagged<R>(f: impl FnOnce() -> R) -> R {
         r
     }
 }
+
+// ------------------------------------------------------------------ formula-level engine driver
+
+use crate::refsyn::Ast;
+use crate::util::{guarded, Caught};
+use rsbdd::parser::ParsedFormula;
+use rsbdd::NamedSymbol;
+use std::io::BufReader;
+
+pub struct EngineEval {
+    pub result: Rc<BDD<NamedSymbol>>,
+    pub free_vars: Vec<String>,
+    pub vars: Vec<String>,
+    pub var_ids: Vec<usize>,
+    pub ast: Ast,
+    pub steps: u64,
+    pub fp_iters: u64,
+}
+
+pub enum EngineOut {
+    /// tokenizer / parser returned Err
+    Rejected(String),
+    /// a panic while parsing (before evaluation started)
+    ParsePanic(Caught),
+    /// parsed fine (tree attached), then evaluation panicked or ran out of budget
+    EvalCaught(Ast, Caught),
+    Ok(EngineEval),
+}
+
+/// Parse + evaluate a text with the real engine under the H1 budgets.
+pub fn engine_eval(text: &[u8], ordering: Option<Vec<NamedSymbol>>, step_cap: u64, fp_cap: u64) -> EngineOut {
+    crate::util::budget(step_cap, fp_cap);
+    let parsed = guarded(|| ParsedFormula::new(&mut BufReader::new(text), ordering));
+    let pf = match parsed {
+        Err(c) => return EngineOut::ParsePanic(c),
+        Ok(Err(e)) => return EngineOut::Rejected(e.to_string()),
+        Ok(Ok(pf)) => pf,
+    };
+    let ast = crate::conv::ast_of_engine(&pf.bdd);
+    crate::util::budget(step_cap, fp_cap);
+    match guarded(|| pf.eval()) {
+        Err(c) => EngineOut::EvalCaught(ast, c),
+        Ok(result) => EngineOut::Ok(EngineEval {
+            result,
+            free_vars: pf.free_vars.iter().map(|v| v.name.as_ref().clone()).collect(),
+            vars: pf.vars.iter().map(|v| v.name.as_ref().clone()).collect(),
+            var_ids: pf.vars.iter().map(|v| v.id).collect(),
+            ast,
+            steps: rsbdd::verif::steps(),
+            fp_iters: rsbdd::verif::fp_iters(),
+        }),
+    }
+}
+
+/// Enumerate all formula trees with exactly `k` operator nodes over the names `a`, `b`
+/// (lists of length <= 2 for `[..] cmp n`, <= 1 per side for `[..] cmp [..]`, constants <= 2).
+pub fn enum_trees(k: usize) -> Vec<Ast> {
+    use crate::refsyn::{ALL_CMPS, ALL_OPS};
+    fn go(k: usize, memo: &mut Vec<Option<Vec<Ast>>>) -> Vec<Ast> {
+        if let Some(v) = &memo[k] {
+            return v.clone();
+        }
+        let names = ["a", "b"];
+        let mut out: Vec<Ast> = Vec::new();
+        if k == 0 {
+            out.push(Ast::True);
+            out.push(Ast::False);
+            for n in names {
+                out.push(Ast::Var(n.to_string()));
+            }
+        } else {
+            let r = k - 1;
+            for x in go(r, memo) {
+                out.push(Ast::Not(Box::new(x.clone())));
+                for forall in [false, true] {
+                    for vs in [vec![], vec!["a"], vec!["b"], vec!["a", "b"]] {
+                        out.push(Ast::Quant(forall, vs.iter().map(|s| s.to_string()).collect(), Box::new(x.clone())));
+                    }
+                }
+                for gfp in [false, true] {
+                    for n in names {
+                        out.push(Ast::Fix(n.to_string(), gfp, Box::new(x.clone())));
+                    }
+                }
+            }
+            for i in 0..=r {
+                let (ls, rs) = (go(i, memo), go(r - i, memo));
+                for l in &ls {
+                    for rr in &rs {
+                        for op in ALL_OPS {
+                            out.push(Ast::Bin(op, Box::new(l.clone()), Box::new(rr.clone())));
+                        }
+                    }
+                }
+            }
+            for i in 0..=r {
+                for j in 0..=(r - i) {
+                    let (cs, ts, es) = (go(i, memo), go(j, memo), go(r - i - j, memo));
+                    for c in &cs {
+                        for t in &ts {
+                            for e in &es {
+                                out.push(Ast::Ite(Box::new(c.clone()), Box::new(t.clone()), Box::new(e.clone())));
+                            }
+                        }
+                    }
+                }
+            }
+            // lists of length 0..2 whose elements use r operator nodes in total
+            let mut lists: Vec<Vec<Ast>> = Vec::new();
+            if r == 0 {
+                lists.push(vec![]);
+            }
+            for x in go(r, memo) {
+                lists.push(vec![x]);
+            }
+            for i in 0..=r {
+                for x in go(i, memo) {
+                    for y in go(r - i, memo) {
+                        lists.push(vec![x.clone(), y]);
+                    }
+                }
+            }
+            for l in &lists {
+                for cmp in ALL_CMPS {
+                    for n in 0..=2u64 {
+                        out.push(Ast::CountConst(cmp, l.clone(), n));
+                    }
+                }
+            }
+            // list-vs-list with at most one element per side
+            let mut sides: Vec<(Vec<Ast>, Vec<Ast>)> = Vec::new();
+            if r == 0 {
+                sides.push((vec![], vec![]));
+            }
+            for x in go(r, memo) {
+                sides.push((vec![x.clone()], vec![]));
+                sides.push((vec![], vec![x]));
+            }
+            for i in 0..=r {
+                for x in go(i, memo) {
+                    for y in go(r - i, memo) {
+                        sides.push((vec![x.clone()], vec![y]));
+                    }
+                }
+            }
+            for (l, rr) in &sides {
+                for cmp in ALL_CMPS {
+                    out.push(Ast::CountList(cmp, l.clone(), rr.clone()));
+                }
+            }
+        }
+        memo[k] = Some(out.clone());
+        out
+    }
+    let mut memo = vec![None; k + 1];
+    go(k, &mut memo)
+}
